@@ -216,7 +216,7 @@ func c08(c *Ctx) {
 	}
 
 	// ---- renew ----
-	renew := "litefs.Lease.Renew(p2, p1)"
+	renew := "litefs.Lease.Renew(p2, @@)" // the context argument is decided by renew/bounded-by-lease
 	over := GP("(litefs.Lease.TTL(p2) < (time.Since(litefs.Lease.RenewedAt(p2)) + 1000000000))", true)
 	c.EdgeReturns("renew/expired-ends", mp, GP("(litefs.ErrLeaseExpired == "+renew+")", true), pat(renew), 1, "a renewal that reports ErrLeaseExpired ends the primary with that error", "")
 	c.EdgeReturns("renew/ttl-exceeded-ends", mp, over, pat("litefs.ErrLeaseExpired"), 1, "when the next renewal would exceed the TTL the primary ends with ErrLeaseExpired", "renewals have failed for a full TTL")
@@ -302,6 +302,22 @@ func c08(c *Ctx) {
 	// ---- handoff ----
 	ho := "litefs.(*Store).Handoff"
 	lh := p.Calls("litefs.Lease.Handoff")
+	{
+		// F52: a renewal is bounded by the time the lease has left, and the Consul lease honours that bound
+		mp := "litefs.(*Store).monitorLeaseAsPrimary"
+		renew := func(in ssa.Instruction) bool {
+			cc := callCommon(in)
+			return cc != nil && cc.IsInvoke() && cc.Method.Name() == "Renew" && strings.HasSuffix(p.CalleeName(cc), "litefs.Lease.Renew")
+		}
+		c.ExpectAll("renew/bounded-by-lease", c.CallArgs(mp, renew, 1), pat("context.WithDeadline(p1, time.(Time).Add(litefs.Lease.RenewedAt(p2), (litefs.Lease.TTL(p2) - @@)))#0")+"|"+pat("context.WithTimeout(p1, @@litefs.Lease.TTL(p2)@@)#0"), 1,
+			"the monitor renews under a context whose deadline is derived from the lease's own TTL (last renewal + TTL - margin)",
+			"F52: with the monitor's own context a renewal that is never answered blocks the monitor inside Renew: the TTL test is never reached and the node stays primary")
+		c.ExpectAll("renew/consul/context-passed", c.CallArgs("consul.(*Lease).Renew", p.PlainCalls("github.com/hashicorp/consul/api.(*Session).Renew"), 2), pat("github.com/hashicorp/consul/api.(*WriteOptions).WithContext(@@, p1)"), 1,
+			"the Consul lease passes the caller's context to the session renewal (the API client has no time-out of its own)", "")
+		// F53: the wait for the write lock on behalf of a halt request ends with the lease
+		c.ExpectAll("halt/acquire-under-primary-context", c.CallArgs("http.(*Server).handlePostHalt", p.PlainCalls("litefs.(*DB).AcquireHaltLock"), 1), pat("litefs.(*Store).PrimaryCtx(p0.store, net/http.(*Request).Context(@@))"), 1,
+			"POST /halt waits for the write lock under the primary-lease context", "F53: a node demoted while the request waited still granted the halt lock once the lock became free")
+	}
 	c.Guarded("handoff/request/node-id-nonzero", "http.(*Server).handlePostHandoff", p.PlainCalls("litefs.(*Store).Handoff"), gs(G(`^\(0 == litefs\.ParseNodeID\(.*"nodeID"\)\)#0\)$`, false)), 1,
 		"the handoff endpoint never asks the store to hand off to node id 0", "F51: a stream opened without a node id is recorded as node 0; a handoff to it gives the lease to a client that cannot take it and demotes the primary")
 	c.ExpectAll("handoff/same-node", c.CallArgs(ho, lh, 2), "p2", 1, "the node handed to is the requested one", "")
